@@ -11,7 +11,7 @@ What it does
   2. builds /verif/stress with the race detector (falls back to a plain build when -race cannot
      be built) and runs
         quick    : the random stress (persistent sessions; clean sessions only) ~6 s each and the
-                   six probes, in parallel (about 20 s wall);
+                   seven probes, in parallel (about 20 s wall);
         thorough : more seeds, more clients, 60 s runs, delivery_mode=overlap as well;
   3. turns every `STRESS FAIL` into a violation ('oracle', replay file, '') unless an OPEN entry
      of known_findings.json (property C15) matches it through its "stress" key
@@ -28,7 +28,7 @@ import os, sys, re, json, subprocess, tempfile, time, shutil
 from concurrent.futures import ThreadPoolExecutor
 
 GO = 'go1.26.8'
-PROBES = ['flood-after-disconnect', 'stop-during-connect', 'once-deadlock', 'same-id-storm', 'slow-subscriber', 'overlap-lock-cycle']
+PROBES = ['flood-after-disconnect', 'stop-during-connect', 'stop-vs-late-connect', 'once-deadlock', 'same-id-storm', 'slow-subscriber', 'overlap-lock-cycle']
 
 
 def goenv(cgo):
@@ -48,7 +48,7 @@ def run_translators(ROOT, REPO, notes):
         if r.returncode != 0:
             return False, r.stdout[-3000:], {}
         info = {'translator_summary': [l for l in r.stdout.splitlines() if l.startswith('verifgen:')]}
-        for f in ('LockOrder.v', 'HookKinds.v', 'Consts.v'):
+        for f in ('LockOrder.v', 'HookKinds.v', 'Consts.v', 'StopOrder.v'):
             cur = os.path.join(ROOT, 'coq', 'theories', 'Gen', f)
             if not os.path.exists(cur):
                 notes.append('theories/Gen/%s is missing (gen/READY not set?)' % f)
@@ -78,6 +78,43 @@ def table_counts(ROOT):
     cov['dyncalls_under_lock_pairs'] = len(re.findall(r'^\s+\("', block('dyncalls_under_lock'), re.M))
     cov['guarded_call_sites_checked'] = len(re.findall(r'mk_guarded_call ', block('guarded_calls')))
     return cov
+
+
+STOP_REQUIRED = [
+    ('SDeferCloseExited', 'SExit', 'the deferred close(exitedChan) must be registered first'),
+    ('SExit', 'SSnapshotCloseClients', 'exit() must precede the snapshot of srv.clients'),
+    ('SCloseListeners', 'SSnapshotCloseClients', 'the TCP listeners must be closed before the snapshot of srv.clients: a client accepted and registered in between is never closed nor waited for'),
+    ('SShutdownWebsockets', 'SSnapshotCloseClients', 'the websocket servers must be shut down before the snapshot of srv.clients: a client accepted and registered in between is never closed nor waited for'),
+    ('SLock', 'SSnapshotCloseClients', 'the snapshot must be taken under srv.mu'),
+    ('SSnapshotCloseClients', 'SUnlock', 'the snapshot must be taken under srv.mu'),
+    ('SUnlock', 'SStartWaiter', 'the wait must be outside srv.mu'),
+    ('SStartWaiter', 'SWait', 'the waiter must be started before the select'),
+    ('SUnlock', 'SWait', 'the wait must be outside srv.mu'),
+    ('SWait', 'SUnload', 'plugins are unloaded after all remembered connections are closed'),
+    ('SUnload', 'SOnStop', 'OnStop comes after Unload'),
+]
+STOP_OPS = ['SDeferCloseExited', 'SExit', 'SCloseListeners', 'SShutdownWebsockets', 'SLock', 'SSnapshotCloseClients',
+            'SUnlock', 'SStartWaiter', 'SWait', 'SUnload', 'SOnStop']
+
+
+def stop_order_check(ROOT):
+    """mirror of theorem C15_stop_order (Proofs/StopLifeP.v: required_order) over Gen/StopOrder.v;
+    returns (sequence, list of broken requirements)"""
+    p = os.path.join(ROOT, 'coq', 'theories', 'Gen', 'StopOrder.v')
+    if not os.path.exists(p):
+        return None, ['theories/Gen/StopOrder.v is missing']
+    m = re.search(r'Definition stop_ops : list stop_op := \[(.*?)\n\]\.', open(p).read(), re.S)
+    if not m:
+        return None, ['stop_ops not found in Gen/StopOrder.v']
+    seq = re.findall(r'^\s+(S\w+)', m.group(1), re.M)
+    broken = []
+    for o in STOP_OPS:
+        if seq.count(o) != 1:
+            broken.append('%s occurs %d times in the body of stopOnce.Do (want exactly once)' % (o, seq.count(o)))
+    for (a, b, why) in STOP_REQUIRED:
+        if a in seq and b in seq and not seq.index(a) < seq.index(b):
+            broken.append('%s comes after %s: %s' % (a, b, why))
+    return seq, broken
 
 
 def build_stress(ROOT, notes):
@@ -176,6 +213,20 @@ def static(ROOT, REPO, tier):
         open(rp, 'w').write('the translators no longer understand the source (the tables of theories/Gen cannot be regenerated):\n' + out)
         violations.append(('correspondence', rp, ' no-failing-input-found'))
     cov.update(table_counts(ROOT))
+    seq, broken = stop_order_check(ROOT)
+    cov['stop_order'] = seq
+    if broken:
+        # a concrete failing "input" of the static half: the order of the operations in server.Stop
+        rp = os.path.join(ROOT, 'replays', 'C15-stop-order.txt')
+        with open(rp, 'w') as f:
+            f.write('; property C15 (Stop returns after closing all listeners and connections ...) fails on the source:\n')
+            f.write('; order of the operations in the body of stopOnce.Do (Gen/StopOrder.v): %s\n' % ' '.join(seq or []))
+            for b in broken:
+                f.write('; offending order: %s\n' % b)
+            f.write('; theorem C15_stop_order of Props/C15.v no longer checks\n'
+                    '; replay: stress -probe stop-vs-late-connect (a client that completes CONNECT between the snapshot and\n'
+                    ';         the closing of the listener is online after Stop has returned)\n')
+        violations.append(('oracle', rp, ''))
     exe, race, err = build_stress(ROOT, notes)
     cov['stress_race_detector'] = race
     if exe is None:
